@@ -340,6 +340,44 @@ pub fn run(ctx: &RunCtx) -> Outcome {
             return o;
         }
     }
+    // plain groups / alternations whose concatenation ends in a constant-size element, next to a word boundary
+    // (the compiler may only hand a piece to the automata engine atomically if it really is constant-size)
+    {
+        let bx = |n: Node| Box::new(n);
+        let star = |n: Node, q: Q| Repeat(bx(n), 0, None, q);
+        let inner: Vec<Node> = vec![
+            Concat(vec![star(Any, Q::Greedy), Lit('a')]),
+            Concat(vec![star(Lit('a'), Q::Greedy), Lit('b')]),
+            Concat(vec![Repeat(bx(Lit('a')), 0, Some(1), Q::Greedy), Lit('a')]),
+            Concat(vec![Repeat(bx(Perl('w')), 1, None, Q::Greedy), Lit(' ')]),
+            Concat(vec![star(Perl('w'), Q::Lazy), Lit('a')]),
+            Alt(vec![Lit('a'), Concat(vec![Lit('a'), Lit('b')])]),
+            Concat(vec![Alt(vec![Lit('a'), Concat(vec![Lit('a'), Lit('b')])]), Lit('b')]),
+            Concat(vec![Repeat(bx(Class(false, vec![('a', 'b')])), 1, Some(2), Q::Greedy), Any]),
+        ];
+        let mut v = vec![];
+        for i in &inner {
+            for wrap in 0..3 {
+                let w = match wrap {
+                    0 => Group(bx(i.clone())),
+                    1 => Alt(vec![i.clone(), Lit('b')]),
+                    _ => Repeat(bx(Group(bx(i.clone()))), 1, Some(2), Q::Greedy),
+                };
+                for b in [A::WordB, A::NotWordB, A::WordEnd] {
+                    v.push(super::api::flatten(Concat(vec![w.clone(), Assert(b), Lit(' '), Lit('b')])));
+                    v.push(super::api::flatten(Concat(vec![w.clone(), Assert(b)])));
+                    v.push(super::api::flatten(Concat(vec![Lit('b'), Assert(b), w.clone(), Lit('b')])));
+                    v.push(super::api::flatten(Concat(vec![w.clone(), Assert(b), star(Perl('w'), Q::Greedy), Lit('b')])));
+                }
+            }
+        }
+        let v = gen::dedup_by_print(v);
+        let mut wt = gen::texts(&['a', 'b', ' '], 5);
+        wt.extend(["a b a c", "ab ab b", "aa a b", "a=b;c=d", "bab abb"].iter().map(|s| s.to_string()));
+        if !stage(ctx, &mut o, &plain, "groups ending in a constant-size element next to a word boundary", &v, &wt) {
+            return o;
+        }
+    }
     // flags and case: bases N<=3 with an upper-case literal added
     let mut fcfg = gen::common_cfg();
     fcfg.leaves = vec![Lit('a'), Lit('B'), Any, Class(false, vec![('a', 'b')]), Class(true, vec![('A', 'A')]), Perl('w'), Assert(A::StartText), Assert(A::EndText), Assert(A::WordB), Lit('é'), Lit('\n')];
